@@ -12,8 +12,17 @@
  *   queue_call_rcu callback given to cds_lfq_init_rcu = lfq_call_rcu(): markers around the real call_rcu.
  *
  * build: gcc -DRCU_MEMBARRIER|-DRCU_MB lfq.c vrt.c vrt_compat_futex.c compat_arch.c
- * run:   VRT_MEMBARRIER=0|1 lfq --seed N [--mode rand|uaf-node|uaf-dummy] --threads T --ops K --nodes M
- *            --park PCT --solo PCT --freepct PCT  (+ runtime options: --strategy, --pswitch, ...)
+ * run:   VRT_MEMBARRIER=0|1 lfq --seed N [--mode rand|uaf-node|uaf-dummy|two-dummies] --threads T --ops K --nodes M
+ *            --park PCT --solo PCT --freepct PCT  (+ runtime options: --strategy rand|pct|sweep, --pswitch, --preempt-at ...)
+ *        rand         T workers, K operations each, in read-side sections of 1-3 operations; dequeued nodes are freed
+ *                     (quarantined) or returned to the pool after synchronize_rcu() or from a call_rcu callback
+ *        uaf-node     E suspended between link and tail advance; D dequeues the node q->tail points to, waits a grace
+ *                     period, frees it; F (section begun after that grace period started) enqueues   (DESIGN 10.4 finding 3)
+ *        uaf-dummy    the same with the initial dummy, freed by the library through call_rcu
+ *        two-dummies  two dequeuers see the same last node and enqueue a dummy each, an enqueue in between: the emptied
+ *                     queue is a chain of two dummies; destroy must accept it                      (DESIGN 10.4 finding 4)
+ *        --solo PCT   C17: with probability PCT an operation is run with every other worker frozen wherever it is
+ *                     (known to the scheduler from its spawn on) and must finish within the bound below
  *
  * Independent oracles (implementation side, no model):
  *   fifo/dup/fresh/null  linearizability of the recorded call/return history against a FIFO queue
@@ -633,6 +642,13 @@ static void do_init(void)
 	vrt_log("RET init");
 }
 
+static void *stopper(void *arg)
+{
+	(void)arg;
+	call_rcu_data_free(crdp);
+	return NULL;
+}
+
 int main(int argc, char **argv)
 {
 	int i, inq, tids[MAXT + 1];
@@ -670,7 +686,7 @@ int main(int argc, char **argv)
 	vrt_name(&gp_waiters.stack.head, sizeof(void *), "waiters.head");
 	for (i = 0; i < nnodes; i++) {
 		unode_of(i)->id = i;
-		vrt_name(unode_of(i), sizeof(struct cds_lfq_node_rcu), "node%d", i);
+		vrt_name(unode_of(i), sizeof(struct unode), "node%d", i);
 		pool[npool++] = nnodes - 1 - i;
 	}
 #ifdef RCU_MEMBARRIER
@@ -680,6 +696,7 @@ int main(int argc, char **argv)
 #endif
 	rcu_register_thread();
 	crdp = create_call_rcu_data(0, -1);
+	vrt_name(crdp, sizeof(*crdp), "crdp");
 	set_thread_call_rcu_data(crdp);
 
 	/* init / destroy of an empty queue, then the queue used by the run */
@@ -690,7 +707,7 @@ int main(int argc, char **argv)
 
 	if (mode == 0) {
 		for (i = 1; i <= nthreads; i++)
-			tids[i] = vrt_spawn("worker", worker, (void *)(long)i);
+			worker_tid[i] = tids[i] = vrt_spawn("worker", worker, (void *)(long)i);	/* known before the thread first runs: a solo run freezes it too */
 	} else {
 		park_pct = 0; solo_pct = 0;
 		if (mode == 1 || mode == 3) {
@@ -721,8 +738,14 @@ int main(int argc, char **argv)
 	for (i = 0; i < nnodes; i++)
 		if (node_state[i] == 1)
 			inq++;
-	if (inq || mode == 3)
-		expect_destroy(inq);
+	if (inq || mode == 3) {
+		if (expect_destroy(inq) == 0) {
+			/* the queue (a chain of dummies only) is gone: the drain below runs on a fresh one */
+			while (pending_cbs > 0)
+				vrt_sleep(10);
+			do_init();
+		}
+	}
 	do_lock();
 	while (do_deq() >= 0)
 		inq--;
@@ -732,7 +755,9 @@ int main(int argc, char **argv)
 	while (pending_cbs > 0)
 		vrt_sleep(10);
 	expect_destroy(0);
-	call_rcu_data_free(crdp);
+	/* call_rcu_data_free() polls until the helper thread has stopped; from a thread of its own so that the
+	 * non-preemptive base schedule of the sweep strategy (lowest polling thread first) lets the helper run */
+	vrt_join(vrt_spawn("stopper", stopper, NULL));
 	rcu_unregister_thread();
 	check_history();
 	vrt_raw("# lfq dummies=%d history=%d", ndummies, nh);
